@@ -97,6 +97,9 @@ UNITS = UNITS + arms_units("C02")
 from contracts.check_type import check_type_unit  # noqa: E402
 UNITS.append(check_type_unit("C02"))
 
+from contracts.c01 import json_number_lemmas  # noqa: E402
+LEMMAS = [json_number_lemmas("C02")]
+
 VERIFIED_CALLEES = ("adapt_typehints",)
 LEVEL = "other"
 TECHNIQUE = "contract-based deductive verification (VCs from the real AST of the Union arm, recursion by contract) + bounded run-time contract checking against an independent structural validator"
